@@ -8,13 +8,16 @@ package main
 // re-encodes it (read-only uses, the event shape of cmd/codec's "Shared" events, judged by spec/trace/Trace_C19.tla
 // against the specification's decoding of the original octets); the one goroutine that owns the message's receive buffer
 // (case index modulo the number of goroutines) first ciphers that buffer in place with security.NASEncrypt - a library
-// call on ITS buffer, a value distinct from the decoded message as far as the API says.  A decoder that keeps a
+// call on ITS buffer, a value distinct from the decoded message as far as the API says.  Every reader also takes the
+// octet strings the elements' read accessors return and deciphers them in place: what an accessor returns is the
+// caller's own value (every multi-octet accessor of the library hands out a copy).  A decoder that keeps a
 // reference into the caller's buffer, or a read that writes into the shared message, shows as a race report in library
 // frames and as a Shared event the sequential specification does not allow.
 
 import (
 	"encoding/json"
 	"os"
+	"reflect"
 
 	"verifharness/internal/ev"
 	rm "verifharness/internal/reflectmsg"
@@ -48,6 +51,7 @@ type sharedMsg struct {
 	key  [16]byte
 	cnt  uint32
 	alg  uint8
+	get  []reflect.Value // bound []uint8 read accessors of the elements present (looked up before the goroutines start)
 }
 
 func loadShared(spec famSpec) *family {
@@ -81,6 +85,9 @@ func loadShared(spec famSpec) *family {
 		if pi != nil {
 			s.m = nil
 		}
+		if s.m != nil {
+			s.get = rm.SliceGetters(s.m)
+		}
 	}
 	return &family{"fmsg", len(msgs), func(sk *sink, g, n int) runner {
 		return runner{func(i int) {
@@ -96,6 +103,16 @@ func loadShared(spec famSpec) *family {
 			}
 			e := sharedEv{Op: "Shared", Inp: s.orig, Bytes: []int{}, D: rm.EmptyProj()}
 			pi := ev.Guard(func() {
+				// a reader works with what the read accessors give it: every octet string an accessor of a present element
+				// returns is the reader's own value, and the reader deciphers it in place (what a receiver does with a NAS
+				// message container or a payload container) before it goes on reading the shared message
+				for k, gm := range s.get {
+					if (k+g)%2 == 0 || len(s.get) <= 4 {
+						if r := gm.Call(nil)[0].Bytes(); len(r) > 0 {
+							_ = security.NASEncrypt(uint8((k+g)%3)+1, s.key, s.cnt+uint32(g), uint8(k%32), uint8(g%2), r)
+						}
+					}
+				}
 				e.D = rm.Project(s.m)
 				out, err := s.m.PlainNasEncode()
 				e.Ok = err == nil
